@@ -355,3 +355,25 @@ package node
 //@   modifies c.promises[*], c.internalTransactionPool
 //@   ensures[queued] len(c.internalTransactionPool) == old(len(c.internalTransactionPool)) + 1 && __eq(c.internalTransactionPool[len(c.internalTransactionPool)-1], tx) && (forall k int :: 0 <= k && k < old(len(c.internalTransactionPool)) ==> __eq(c.internalTransactionPool[k], old(c.internalTransactionPool)[k]))
 //@   ensures[promise] ret0 != nil
+
+// ------------------------------------------------------------------------------------------------
+// The node's state machine (C17, sequential part): the Run loop reads the state once per turn and starts the gossip
+// routine only for a turn that read Babbling, the fast-forward only for CatchingUp, the join only for Joining; a turn that
+// read Suspended or Shutdown starts nothing (Shutdown leaves the loop). In maintenance mode the loop is never entered.
+// The routines themselves run select loops over channels and timers (babble) or talk to the network (join) and are
+// outside the subset: trusted, frame computed. What a state change *during* a routine does is concurrency (not verified).
+//@ func (n *Node) babble(gossip bool)
+//@   trusted select loop over timer, suspend and shutdown channels (concurrency) not verified
+//@   requires n != nil
+
+//@ func (n *Node) join() error
+//@   trusted network exchange with a peer (join request, response) not verified
+//@   requires n != nil
+
+//@ func (n *Node) Run(gossip bool)
+//@   requires n != nil && n.conf != nil && n.core != nil && n.core.hg != nil && n.core.validator != nil && n.proxy != nil && n.core.promises != nil
+//@   ensures[maintenance] old(n.conf.MaintenanceMode) ==> !__called("babble") && !__called("fastForward") && !__called("join")
+//@   call babble      assert[only-babbling]    state == _state.Babbling && !n.conf.MaintenanceMode
+//@   call fastForward assert[only-catching-up] state == _state.CatchingUp && !n.conf.MaintenanceMode
+//@   call join        assert[only-joining]     state == _state.Joining && !n.conf.MaintenanceMode
+//@   loop 1 invariant[standing] n.conf != nil && n.core != nil && n.core.hg != nil && n.core.validator != nil && n.proxy != nil && n.core.promises != nil && !n.conf.MaintenanceMode && n.conf.MaintenanceMode == old(n.conf.MaintenanceMode)
